@@ -48,8 +48,11 @@ impl Serialize for KerningInnerSerializer<'_> {
     {
         let mut map = serializer.serialize_map(Some(self.inner_kerning.len()))?;
         for (k, v) in self.inner_kerning {
-            if (v - v.round()).abs() < f64::EPSILON {
-                map.serialize_entry(k, &(v.round() as i32))?;
+            let rounded = v.round();
+            // `as i32` saturates: values outside the i32 range are written as floats.
+            let fits_i32 = rounded >= i32::MIN as f64 && rounded <= i32::MAX as f64;
+            if (v - rounded).abs() < f64::EPSILON && fits_i32 {
+                map.serialize_entry(k, &(rounded as i32))?;
             } else {
                 map.serialize_entry(k, v)?;
             }
